@@ -546,6 +546,27 @@ type HTTPTarget struct {
 	WhoIsDown atomic.Bool
 	// Chunked: request bodies are sent without a declared length (Transfer-Encoding: chunked).
 	Chunked bool
+	// BreakAfter > 0: the NEXT request's connection breaks once the server has written that many bytes
+	// of its answer (the client hung up): further writes fail, the caller gets a transport error.
+	BreakAfter int
+}
+
+// brokenConn is a ResponseWriter whose connection breaks after n bytes of body.
+type brokenConn struct {
+	hdr  http.Header
+	left int
+}
+
+func (b *brokenConn) Header() http.Header { return b.hdr }
+func (b *brokenConn) WriteHeader(int)     {}
+func (b *brokenConn) Write(p []byte) (int, error) {
+	if len(p) <= b.left {
+		b.left -= len(p)
+		return len(p), nil
+	}
+	n := b.left
+	b.left = 0
+	return n, errors.New("write: broken pipe")
 }
 
 func (t *HTTPTarget) client(c CallerM) setec.Client {
@@ -556,6 +577,11 @@ func (t *HTTPTarget) client(c CallerM) setec.Client {
 		}
 		if t.Chunked {
 			r.ContentLength, r.TransferEncoding = -1, []string{"chunked"}
+		}
+		if n := t.BreakAfter; n > 0 {
+			t.BreakAfter = 0
+			t.Mux.ServeHTTP(&brokenConn{hdr: http.Header{}, left: n}, r)
+			return nil, errors.New("read: connection reset by peer")
 		}
 		w := httptest.NewRecorder()
 		t.Mux.ServeHTTP(w, r)
